@@ -278,6 +278,8 @@ type Opts struct {
 	MaxFields   int
 	AnonUnionContainers bool // []Union / map[string]Union fields (gounions refuses them)
 	EnumUnexported bool // enums with unexported members
+	DashTags bool // some fields tagged json:"-"
+	DataIgnore bool // some fields tagged gomacro-data:"ignore"
 }
 
 func Full() Opts {
@@ -437,6 +439,14 @@ func Random(id int, rng *rand.Rand, o Opts) *Prog {
 					fld.Tag = fmt.Sprintf(`json:"%s"`, strings.ToLower(fn))
 				case 1:
 					fld.Tag = fmt.Sprintf(`json:"%s_x" xml:"q"`, strings.ToLower(fn))
+				case 2:
+					if o.DashTags {
+						fld.Tag = `json:"-"`
+					}
+				case 3:
+					if o.DataIgnore {
+						fld.Tag = `gomacro-data:"ignore"`
+					}
 				}
 			}
 			fs = append(fs, fld)
